@@ -489,14 +489,114 @@ theorem gen_routes :
     Gen.restCalls = ["Cluster.StatusAllLocal(filter)", "Cluster.StatusAll(filter)"] := by
   refine ⟨by decide, by decide⟩
 
-/-- Full round trip for every mask and every map order — NOT proved in Lean this round (validated on the real
-`String`/`TrackerStatusFromString` by the Spec clause `fs_roundtrip` on every `fs` case). -/
-def print_parse_roundtrip : Prop :=
-  ∀ (order : List (List Char × Nat)) (f : Nat), order.Perm namesC → parseC (printC order f) = f &&& namedMask
+/-- Full round trip (round 8b: proved): for EVERY mask and EVERY order in which Go walks the name map,
+`TrackerStatusFromString(mask.String())` is the mask's named statuses — nothing lost, nothing added. -/
+theorem print_parse_roundtrip (order : List (List Char × Nat)) (f : Nat) (hp : order.Perm namesC) :
+    parseC (printC order f) = f &&& namedMask := by
+  have hnm : namedMask = 8190 := by decide
+  have hcomb : (Gen.fromCombine == "|") = true := by decide
+  have hsep : sepChar = ',' := by decide
+  have hj : joinChar = ',' := by decide
+  have hexact : Gen.stringExactFirst = true := by decide
+  rw [hnm]
+  cases hfind : namesC.find? (fun e => e.2 == f) with
+  | some e =>
+    -- the exact table entry is printed
+    have hmem : e ∈ namesC := List.mem_of_find?_eq_some hfind
+    have hef : e.2 = f := by simpa using List.find?_some hfind
+    have hone : ∀ e ∈ namesC, parseC e.1 = e.2 &&& 8190 := by decide
+    have : printC order f = e.1 := by simp [printC, printToks, hexact, hfind, joinC]
+    rw [this, hone e hmem, hef]
+  | none =>
+    have htoks : printToks order f = (order.filter (fun e => loopCond f e.2)).map (·.1) := by
+      simp only [printToks, hexact, hfind, if_true]
+      congr 2
+      funext e
+      exact loop_cond_interp f e.2
+    have hsub : ∀ e ∈ order, e ∈ namesC := fun e he => hp.mem_iff.mp he
+    have hval : parseToks (printToks order f) = f &&& 8190 := by
+      rw [htoks, parseToks_names _ (fun e he => names_lookup e (hsub e (List.mem_filter.mp he).1))]
+      exact named_or order f hp
+    by_cases hne : printToks order f = []
+    · have : printC order f = [] := by simp [printC, hne, joinC]
+      rw [this]
+      rw [hne] at hval
+      rw [← hval]
+      decide
+    · -- no space in the printed text: nothing is stripped; splitting gives the tokens back
+      have hstrip : stripC (printC order f) = printC order f := by
+        unfold stripC
+        rw [List.filter_eq_self]
+        intro c hc
+        unfold printC at hc
+        rcases mem_joinC joinChar _ c hc with h | ⟨t, ht, hct⟩
+        · rw [h, hj]; decide
+        · rw [htoks] at ht
+          obtain ⟨e, he, rfl⟩ := List.mem_map.mp ht
+          exact names_noStrip e (hsub e (List.mem_filter.mp he).1) c hct
+      unfold parseC
+      rw [if_pos hcomb, hstrip, split_join_names order f hsub hne, hval]
 
-/-- what the Cluster RPC receives from the REST client — same status as `print_parse_roundtrip` -/
-def client_filter_law : Prop :=
-  ∀ (order : List (List Char × Nat)) (f : Nat), order.Perm namesC →
-    endToEnd order f = (if f ≠ 0 ∧ f &&& namedMask = 0 then none else some (f &&& namedMask))
+example : parseC (printC namesC.reverse (16 ||| 4096 ||| 1 ||| 8192)) = 16 ||| 4096 := by decide
+
+/-- What the Cluster RPC receives from the REST client (round 8b: proved), for every mask and map order:
+the caller's named statuses; a non-zero mask without any named status is refused, never widened to "all". -/
+theorem client_filter_law (order : List (List Char × Nat)) (f : Nat) (hp : order.Perm namesC) :
+    endToEnd order f = (if f ≠ 0 ∧ f &&& namedMask = 0 then none else some (f &&& namedMask)) := by
+  have hrt := print_parse_roundtrip order f hp
+  have hr := (rest_guard_law (printC order f)).1
+  have h0 : restFilter [] = some 0 := by decide
+  have hp0 : parseC [] = 0 := by decide
+  simp only [endToEnd, evalP, Gen.clientGuard, List.foldr, stepTok, binOp]
+  by_cases hf : f = 0
+  · subst hf
+    simp [b2n, h0]
+  · cases hs : (printC order f).isEmpty with
+    | true =>
+      have hnil : printC order f = [] := by simpa using hs
+      have hz : f &&& namedMask = 0 := by rw [← hrt, hnil, hp0]
+      simp [b2n, hf, hz]
+    | false =>
+      rw [hrt, hs] at hr
+      by_cases hz : f &&& namedMask = 0
+      · simp [b2n, hf, hz, hs] at hr ⊢
+        exact hr
+      · simp [b2n, hf, hz, hs] at hr ⊢
+        exact hr
+
+example : endToEnd namesC (16 ||| 8192) = some 16 ∧ endToEnd namesC 8192 = none ∧ endToEnd namesC 0 = some 0 := by decide
+
+/-! ## round 8b — the cluster-wide listing for every member set -/
+
+/-- `Cluster.StatusAll`, EVERY member list (with repetitions, unreachable or refusing members), every reply
+table, every list a member returns: only members appear in a PeerMap (follower mode: only this peer). -/
+theorem gs_nobody_else (i : GSliceInput) :
+    ∀ e ∈ globalSlice i, ∀ q ∈ e.2.map (·.1), q ∈ (if i.follower then [i.self] else i.members) :=
+  globalSlice_in i
+
+/-- A one-member cluster (what the suite `rpc` runs the real `Cluster.StatusAll` on): the cluster-wide
+listing is the member's own listing, CID by CID, for EVERY listing with distinct CIDs. -/
+theorem one_member_slice (self : Nat) (pins : List (Nat × Pin)) (l : List (Nat × Nat)) (hn : (l.map (·.1)).Nodup) :
+    globalSlice { self := self, follower := false, members := [self], pins := pins, replies := [(self, .ok l)] }
+      = l.map (fun e => (e.1, [(self, e.2)])) := by
+  have hr : replyOf [(self, Reply.ok l)] self = .ok l := by simp [replyOf]
+  simp only [globalSlice, Bool.false_eq_true, if_false, List.foldl_cons, List.foldl_nil, hr, List.filter_cons,
+    List.filter_nil]
+  rw [report_fresh self l [] hn (fun _ _ h => by simp [ckeys] at h)]
+  simp
+
+example : globalSlice { self := 3, follower := false, members := [3], pins := [], replies := [(3, .ok [(0, 16), (2, 4)])] }
+    = [(0, [(3, 16)]), (2, [(3, 4)])] := by decide
+
+/-- …and it is false for a listing that names a CID twice: the last entry wins (refutation of the
+statement without the distinctness hypothesis). -/
+theorem one_member_slice_needs_distinct :
+    ¬ (∀ (self : Nat) (l : List (Nat × Nat)),
+      globalSlice { self := self, follower := false, members := [self], pins := [], replies := [(self, .ok l)] }
+        = l.map (fun e => (e.1, [(self, e.2)]))) := by
+  intro h
+  have := h 0 [(0, 16), (0, 4)]
+  revert this
+  decide
 
 end CV.C06
